@@ -24,6 +24,7 @@ import (
 	"github.com/istio-ecosystem/authservice/internal/server"
 	"github.com/istio-ecosystem/authservice/zzverif/ev"
 	"github.com/istio-ecosystem/authservice/zzverif/par"
+	"github.com/istio-ecosystem/authservice/zzverif/schedx"
 )
 
 // C06: session ids, state and nonce are unpredictable — exhaustive search by a bounded attacker.
@@ -384,6 +385,22 @@ func c06Run(run *ev.Run) {
 		}
 		run.Class("one-generator-many-logins")
 	}
+	// concurrent logins: all interleavings (at every lock operation of the repository's code, pre-emption bound 2/3) of
+	// two and three threads that each obtain a login redirect through Check must yield pairwise different identifiers
+	for _, nt := range []int{2, 3} {
+		bound := 2
+		if run.Tier == "thorough" {
+			bound = 3
+		}
+		sc := c06ConcScenario(nt, bound)
+		cs := schedx.Explore(run, "C06", sc)
+		atomic.AddInt64(&cands, cs.Schedules)
+		run.Extra["schedules "+sc.Name] = cs.Schedules
+		run.Class(fmt.Sprintf("concurrent-logins|threads=%d|schedules=%d", nt, cs.Schedules))
+		if !cs.Complete {
+			run.Cap("concurrent scenario not completed: " + sc.Name)
+		}
+	}
 	// attack 2 (thorough): the whole math/rand seed space against the first login
 	if run.Tier == "thorough" && run.Violations() == 0 {
 		l := &logins[0]
@@ -435,6 +452,65 @@ func c06Run(run *ev.Run) {
 	}
 	run.Sample(map[string]any{"login": 0, "bracket_ns": logins[0].T1 - logins[0].T0, "window_seeds": len(c06WindowSeeds(&logins[0])), "public": []string{logins[0].State, logins[0].Nonce, logins[0].Challenge}})
 	run.Evals, run.States, run.Transitions, run.Traces = cands, int64(len(logins)), cands, int64(len(logins))
+}
+
+// c06ConcScenario: nt threads each send several cookie-less requests through ONE ExtAuthZFilter; every identifier
+// issued in the execution must be unique.
+func c06ConcScenario(nt, bound int) schedx.Scenario {
+	return schedx.Scenario{Name: fmt.Sprintf("%d concurrent login redirects", nt), Bound: bound, SyncPoints: true, PanicIsViolation: true, DeadlockIsViolation: true,
+		// a duplicate identifier inside one execution is a fact about the real code whatever process-wide generator
+		// state earlier executions left behind, so it is reported without the replay confirmation
+		OnceOnly: true,
+		Setup: func() *schedx.Instance {
+			var cnt int64
+			cfg := &configv1.Config{Chains: []*configv1.FilterChain{{Name: "c", Filters: []*configv1.Filter{{Type: &configv1.Filter_Oidc{Oidc: c08OIDC()}}}}}}
+			f := server.NewExtAuthZFilter(cfg, c08Pool, nil, countingFactory{countingStore{n: &cnt}})
+			vals := make([][]string, nt)
+			bodies := make([]func(), nt)
+			for i := 0; i < nt; i++ {
+				i := i
+				bodies[i] = func() {
+					for k := 0; k < 2; k++ {
+						req := &envoy.CheckRequest{Attributes: &envoy.AttributeContext{Request: &envoy.AttributeContext_Request{
+							Http: &envoy.AttributeContext_HttpRequest{Id: "1", Method: "GET", Scheme: "https", Host: "app.test", Path: "/x", Headers: map[string]string{}}}}}
+						resp, err := f.Check(context.Background(), req)
+						if err != nil {
+							continue
+						}
+						for _, h := range resp.GetDeniedResponse().GetHeaders() {
+							switch strings.ToLower(h.GetHeader().GetKey()) {
+							case "location":
+								if u, err := url.Parse(h.GetHeader().GetValue()); err == nil {
+									vals[i] = append(vals[i], u.Query().Get("state"), u.Query().Get("nonce"))
+								}
+							case "set-cookie":
+								v := h.GetHeader().GetValue()
+								if j := strings.Index(v, "="); j > 0 {
+									vals[i] = append(vals[i], strings.SplitN(v[j+1:], ";", 2)[0])
+								}
+							}
+						}
+					}
+				}
+			}
+			return &schedx.Instance{Threads: bodies, Finish: func(x *schedx.Exec) (string, []schedx.Violation) {
+				seen := map[string]int{}
+				var viols []schedx.Violation
+				n := 0
+				for i, vs := range vals {
+					for _, v := range vs {
+						n++
+						if j, dup := seen[v]; dup {
+							viols = append(viols, schedx.Violation{Signature: "predictable target=identifier attack=replayed-to-concurrent-login",
+								Message: fmt.Sprintf("an identifier issued to thread %d was also issued to thread %d in the same execution", i, j)})
+						}
+						seen[v] = i
+					}
+				}
+				// the observation must be schedule-independent apart from the (random) values themselves
+				return fmt.Sprintf("identifiers=%d distinct=%d", n, len(seen)), viols
+			}}
+		}}
 }
 
 func c06ReplayFn(path string) int {
